@@ -76,12 +76,22 @@ FAULT_KINDS = ("lose", "trunc", "drop", "cancel")
 _AFTER = {"back": 0, "start": 1, "deliver": 2, "timer": 3, "connect": 4}
 
 
-def sweep(cfg, visit, faults=FAULT_KINDS, second=False):
+def sweep(cfg, visit, faults=FAULT_KINDS, second=False, sequential=False):
     """single-fault sweep: take the fault-free run (always the first choice offered: start, then deliver, then
     timer) and, for EVERY quiescent point of it and EVERY fault choice offered there, one run that follows the
     fault-free run up to that point, injects the fault and then lets the environment recover (device back, reports
     delivered, timers fired; no second fault unless `second`).  Linear in the length of the run, so no injection
-    point is left to the luck of the DFS budget or of the random walks.  Returns the number of runs."""
+    point is left to the luck of the DFS budget or of the random walks.  `sequential`: the fault-free run starts a
+    caller only when nothing else can happen (callers one after the other) instead of all at once (queued on the
+    lock).  Returns the number of runs."""
+    def base_choice(ch):
+        if not sequential:
+            return 0
+        ok = [j for j, c in enumerate(ch) if c[0] not in faults]
+        if not ok:
+            return 0
+        return min(ok, key=lambda j: ({"deliver": 0, "timer": 1, "start": 2}.get(ch[j][0], 9), j))
+
     def run(pos, which):
         n = [0]
         offered = []
@@ -91,12 +101,12 @@ def sweep(cfg, visit, faults=FAULT_KINDS, second=False):
             n[0] += 1
             fl = [j for j, c in enumerate(ch) if c[0] in faults]
             if i < pos:
-                return 0
+                return base_choice(ch)
             if i == pos:
                 offered.extend(fl)
                 if which < len(fl):
                     return fl[which]
-                return 0
+                return base_choice(ch)
             ok = [j for j, c in enumerate(ch) if c[0] not in faults or second]
             if not ok:
                 return 0
